@@ -24,6 +24,13 @@ Qed.
 Lemma hits_of_tg m k a b : tg a = tg b -> hits m k a = hits m k b.
 Proof. unfold tg. intros H. inversion H. apply hits_same_target; assumption. Qed.
 
+Definition tg_eqb (a b : module * list N) : bool := module_eqb (fst a) (fst b) && key_eqb (snd a) (snd b).
+Lemma tg_eqb_eq a b : tg_eqb a b = true <-> a = b.
+Proof.
+  unfold tg_eqb. destruct a as [m k], b as [m' k']. cbn [fst snd]. rewrite andb_true_iff, module_eqb_eq, key_eqb_eq.
+  split; [intros [-> ->]; reflexivity|intros H; inversion H; split; reflexivity].
+Qed.
+
 Lemma distinct_keys_tail x cs : distinct_keys (x :: cs) -> distinct_keys cs.
 Proof. intros Hd i j a b Ha Hb Hij. apply (Hd (S i) (S j) a b); cbn; auto. Qed.
 
@@ -434,6 +441,33 @@ Section Loops.
       + destruct (IH _ _ _ H) as (ups & Hp & A1 & A2 & A3 & A4 & A5 & A5' & A6 & A7). exists (q :: ups). rewrite Hp.
         cbn [option_map upd_list]. rewrite Ek. repeat split; assumption.
   Qed.
+  (* ---- Update PDR on the view; the parsed list (the pool threads through the parser) *)
+  Fixpoint upd_p_parsed (is : list pdr_ie) (l : N) (pf : pfd_table) (pl : option pool) : list pdr :=
+    match is with
+    | [] => []
+    | i :: r => match parse_pdr i l pf pl with
+                | (pl', Some p) => p :: upd_p_parsed r l pf pl'
+                | (_, None) => []
+                end
+    end.
+  Lemma update_p_spec : forall is l pf w w',
+    mod_update_p is l pf w = (w', true) ->
+    w_f w' = w_f w /\ w_q w' = w_q w /\ w_addf w' = w_addf w /\ w_addq w' = w_addq w /\ w_marks w' = w_marks w /\
+    view (w_p w') = fst (upd_list p_id (upd_p_parsed is l pf (w_pool w)) (view (w_p w))) /\
+    w_addp w' = w_addp w ++ map p_id (snd (upd_list p_id (upd_p_parsed is l pf (w_pool w)) (view (w_p w)))).
+  Proof.
+    induction is as [|i is IH]; intros l pf w w' H; cbn [mod_update_p upd_p_parsed] in *.
+    - inversion H; subst. cbn. rewrite app_nil_r. repeat split; reflexivity.
+    - destruct (parse_pdr i l pf (w_pool w)) as [pl [p|]]; [|discriminate]. cbn [upd_list].
+      destruct (find_idx (fun x => p_id x =? p_id p) (view (w_p w))) as [k|] eqn:Ek.
+      + destruct (IH _ _ _ _ H) as (A1 & A2 & A3 & A4 & A5 & A6 & A7).
+        cbn [w_p w_f w_q w_pool w_addp w_addf w_addq w_marks] in *.
+        rewrite view_s_set in A6, A7 by (eapply find_idx_lt; exact Ek).
+        destruct (upd_list p_id (upd_p_parsed is l pf pl) (set_nth k p (view (w_p w)))) as [c' h]. cbn [fst snd map] in *.
+        rewrite A7, <- app_assoc. repeat split; assumption.
+      + destruct (IH _ _ _ _ H) as (A1 & A2 & A3 & A4 & A5 & A6 & A7).
+        unfold w_with_pool in *. cbn [w_p w_f w_q w_pool w_addp w_addf w_addq w_marks] in *. repeat split; assumption.
+  Qed.
 End Loops.
 
 (* ------------------------------------------------------------------ Part 3: the remove loops: the rules are split
@@ -729,18 +763,31 @@ Section Guard.
   Definition is_some {A} (o : option A) : bool := match o with Some _ => true | None => false end.
 
   (* all loops completed: what is asked of the stored session [s0], the message and the lists [w6] the loops produced *)
-  Definition late_ok (a : agent) (seid : N) (s0 : session) (w6 : work)
+  (* the work after the three Create loops, and the Update PDRs as parsed from there (the pool threads through) *)
+  Definition mod_creates (a : agent) (c : conn) (s0 : session) (seid : N)
+             (cp : list pdr_ie) (cf : list far_ie) (cq : list qer_ie) : work :=
+    let w0 := Work (s_pdrs s0) (s_fars s0) (s_qers s0) (a_pool a) [] [] [] [] in
+    fst (mod_create_q cq seid (fst (mod_create_f cf seid (g_access (a_cfg a)) (g_core (a_cfg a)) (fst (mod_create_p cp seid (c_pfds c) w0))))).
+  Definition upd_pdrs (a : agent) (c : conn) (s0 : session) (seid : N)
+             (cp : list pdr_ie) (cf : list far_ie) (cq : list qer_ie) (up : list pdr_ie) : list pdr :=
+    upd_p_parsed up seid (c_pfds c) (w_pool (mod_creates a c s0 seid cp cf cq)).
+
+  Definition late_ok (a : agent) (c : conn) (seid : N) (s0 : session) (w6 : work)
              (cp : list pdr_ie) (cf : list far_ie) (cq : list qer_ie) (up : list pdr_ie) (uf : list far_ie) (uq : list qer_ie)
              (rp rf rq : list (acc N)) : bool :=
-    (* no Update PDR *)
-    nil_b up &&
+    (* an Update PDR keeps the match key: same pdrLookup keys as every rule of the same id among the session's PDRs
+       (stored and just created) and the other Update PDRs of the message *)
+    (let pups := upd_pdrs a c s0 seid cp cf cq up in
+     forallb (fun u => forallb (fun x => negb (p_id x =? p_id u) || list_eqb tg_eqb (ptg x) (ptg u))
+                               (view (w_p (mod_creates a c s0 seid cp cf cq)) ++ pups)) pups) &&
     (* stored FARs / QERs named by an update carry the session's SEID; such a QER is application level (an Update QER
        is written to the application table) *)
     forallb (fun f => negb (mem_n (a_id f) (far_ie_ids uf)) || (a_fseid f =? seid)) (view (s_fars s0)) &&
     forallb (fun q => negb (mem_n (q_id q) (qer_ie_ids uq)) || ((q_level q =? 0) && (q_fseid q =? seid))) (view (s_qers s0)) &&
-    (* created PDR ids are fresh; the FARs (QERs) written by the message have pairwise distinct ids: created ones are
-       fresh, no id is updated twice, nothing is created and updated in the same message *)
-    (nil_b cp || nodupb (map p_id (view (w_p w6)))) &&
+    (* PDR ids are pairwise distinct when the message writes PDRs (created ids are fresh); the FARs (QERs) written by
+       the message have pairwise distinct ids: created ones are fresh, no id is updated twice, nothing is created and
+       updated in the same message *)
+    ((nil_b cp && nil_b up) || nodupb (map p_id (view (w_p w6)))) &&
     nodupb (map a_id (w_addf w6)) && nodupb (map q_id (w_addq w6)) &&
     (* MarkSessionQer relabels nothing: neither in the session's lists nor in the message's QER list *)
     mark_stable (view (w_p w6)) (view (w_q w6)) && mark_stable (view (w_p w6)) (w_addq w6) &&
@@ -813,31 +860,43 @@ Section LoopFacts.
     inversion H; subst w6'. exists w1, w2, w3, w4, w5. repeat split; assumption.
   Qed.
 
-  Lemma loops_facts a c s0 seid cp cf cq uf uq w6 :
-    mod_loops a c s0 seid cp cf cq [] uf uq = (w6, 0%nat) ->
+  Lemma loops_facts a c s0 seid cp cf cq up uf uq w6 :
+    mod_loops a c s0 seid cp cf cq up uf uq = (w6, 0%nat) ->
     exists ps fs qs ups uqs,
       length ps = length cp /\
       parse_all (fun i => parse_far i seid (g_access (a_cfg a)) (g_core (a_cfg a)) false) cf = Some fs /\
       parse_all (fun i => parse_qer i seid) cq = Some qs /\
       parse_all (fun i => parse_far i seid (g_access (a_cfg a)) (g_core (a_cfg a)) true) uf = Some ups /\
       parse_all (fun i => parse_qer i seid) uq = Some uqs /\
-      view (w_p w6) = view (s_pdrs s0) ++ ps /\ w_addp w6 = map p_id ps /\
+      view (w_p (mod_creates a c s0 seid cp cf cq)) = view (s_pdrs s0) ++ ps /\
+      view (w_p w6) = fst (upd_list p_id (upd_pdrs a c s0 seid cp cf cq up) (view (s_pdrs s0) ++ ps)) /\
+      w_addp w6 = map p_id ps ++ map p_id (snd (upd_list p_id (upd_pdrs a c s0 seid cp cf cq up) (view (s_pdrs s0) ++ ps))) /\
       view (w_f w6) = fst (upd_list a_id ups (view (s_fars s0) ++ fs)) /\
       w_addf w6 = fs ++ snd (upd_list a_id ups (view (s_fars s0) ++ fs)) /\
       view (w_q w6) = fst (upd_list q_id uqs (view (s_qers s0) ++ qs)) /\
       w_addq w6 = qs ++ snd (upd_list q_id uqs (view (s_qers s0) ++ qs)).
   Proof.
     intros H. destruct (mod_loops_done _ _ _ _ _ _ _ _ _ _ _ H) as (w1 & w2 & w3 & w4 & w5 & H1 & H2 & H3 & H4 & H5 & H6).
-    destruct (create_p_spec _ _ _ _ _ H1) as (ps & pl & -> & Lp).
-    destruct (create_f_spec _ _ _ _ _ _ H2) as (fs & Pf & ->).
-    destruct (create_q_spec _ _ _ _ H3) as (qs & Pq & ->).
-    cbn [mod_update_p] in H4. inversion H4; subst w4; clear H4.
+    assert (mod_creates a c s0 seid cp cf cq = w3) as Emc.
+    { unfold mod_creates. rewrite H1. cbn [fst]. rewrite H2. cbn [fst]. rewrite H3. reflexivity. }
+    destruct (create_p_spec _ _ _ _ _ H1) as (ps & pl & E1 & Lp).
+    destruct (create_f_spec _ _ _ _ _ _ H2) as (fs & Pf & E2).
+    destruct (create_q_spec _ _ _ _ H3) as (qs & Pq & E3).
+    destruct (update_p_spec _ _ _ _ _ H4) as (C1 & C2 & C3 & C4 & C5 & C6 & C7).
     destruct (update_f_spec _ _ _ _ _ _ H5) as (ups & Pu & A1 & A2 & A3 & A4 & A5 & A6 & A7).
     destruct (update_q_spec _ _ _ _ H6) as (uqs & Pv & B1 & B2 & B3 & B4 & B5 & B5' & B6 & B7).
-    cbn [w_p w_f w_q w_pool w_addp w_addf w_addq w_marks app] in *.
+    unfold upd_pdrs. rewrite Emc. clear Emc H1 H2 H3 H4 H5 H6 H.
+    subst w1 w2 w3. cbn [w_p w_f w_q w_pool w_addp w_addf w_addq w_marks app] in *.
+    rewrite !view_app_slice in *.
     exists ps, fs, qs, ups, uqs.
-    rewrite A2 in B6, B7. rewrite A5 in B7. rewrite B1, A1, B4, A4, B2, A6, B5, A7, B6, B7. rewrite !view_app_slice.
-    repeat split; try assumption; reflexivity.
+    split; [exact Lp|]. split; [exact Pf|]. split; [exact Pq|]. split; [exact Pu|]. split; [exact Pv|].
+    split; [reflexivity|].
+    split; [rewrite B1, A1; exact C6|].
+    split; [rewrite B4, A4; exact C7|].
+    split; [rewrite B2, A6, C1, view_app_slice; reflexivity|].
+    split; [rewrite B5, A7, C3, C1, view_app_slice; reflexivity|].
+    split; [rewrite B6, A2, C2, view_app_slice; reflexivity|].
+    rewrite B7, A5, C4, A2, C2, view_app_slice. reflexivity.
   Qed.
 End LoopFacts.
 
@@ -852,7 +911,7 @@ Section Step.
   Lemma mod_late_image a c seid cpf cp cf cq up uf uq rp rf rq s0 w6 a' c' o :
     find_session seid (c_sessions c) = Some s0 ->
     mod_loops a c s0 seid cp cf cq up uf uq = (w6, 0%nat) ->
-    late_ok a seid s0 w6 cp cf cq up uf uq rp rf rq = true ->
+    late_ok a c seid s0 w6 cp cf cq up uf uq rp rf rq = true ->
     handle_mod burst a c seid cpf cp cf cq up uf uq rp rf rq = Done (a', c', o) ->
     exists s', c_sessions c' = replace_session s' (c_sessions c) /\ s_lseid s' = s_lseid s0 /\
       a_tables a' = apply_cmds (o_cmds o) (a_tables a) /\ o_reply o = Some (RMod (new_rseid cpf s0) CAUSE_OK) /\
@@ -868,8 +927,8 @@ Section Step.
     apply andb_true_iff in HG; destruct HG as [HG G6]. apply andb_true_iff in HG; destruct HG as [HG G5].
     apply andb_true_iff in HG; destruct HG as [HG G4]. apply andb_true_iff in HG; destruct HG as [HG G3].
     apply andb_true_iff in HG; destruct HG as [G1 G2].
-    apply nil_b_spec in G1. subst up.
-    destruct (loops_facts _ _ _ _ _ _ _ _ _ _ HL) as (ps & fs & qs & ups & uqs & Lp & Pf & Pq & Pu & Pv & VP & AP & VF & AF & VQ & AQ).
+    destruct (loops_facts _ _ _ _ _ _ _ _ _ _ _ HL) as (ps & fs & qs & ups & uqs & Lp & Pf & Pq & Pu & Pv & VM & VP & AP & VF & AF & VQ & AQ).
+    cbv zeta in G1. rewrite VM in G1. set (pups := upd_pdrs a c s0 seid cp cf cq up) in *.
     destruct (mod_loops_done _ _ _ _ _ _ _ _ _ _ _ HL) as (w1 & w2 & w3 & w4 & w5 & H1 & H2 & H3 & H4 & H5 & H6).
     destruct (mod_remove_p rp (w_p w6) (a_teids a) []) as [[wp3 g3] [dp|]] eqn:R1; [|discriminate G9].
     destruct (mod_remove_f rf (w_f w6) []) as [wf3 [df|]] eqn:R2; [|discriminate G10].
@@ -884,6 +943,10 @@ Section Step.
     pose proof (remove_p_perm _ _ _ _ _ _ _ R1) as PP. pose proof (remove_f_perm _ _ _ _ _ R2) as PF. pose proof (remove_q_perm _ _ _ _ _ R3) as PQ.
     rewrite app_nil_r in PP, PF, PQ.
     (* targets are preserved by the updates *)
+    assert (map ptg (view (w_p w6)) = map ptg (P0 ++ ps)) as KPm.
+    { rewrite VP. apply (upd_list_keys p_id pdr0 ptg). intros u x Hu Hx Hid.
+      pose proof (forallb_in _ _ _ (forallb_in _ _ _ G1 Hu) Hx) as Hg. cbn beta in Hg. rewrite Hid, N.eqb_refl in Hg. cbn in Hg.
+      apply (list_eqb_eq tg_eqb (fun x y => proj1 (tg_eqb_eq x y))). exact Hg. }
     assert (map ftg (view (w_f w6)) = map ftg (F0 ++ fs)) as KFm.
     { rewrite VF. apply (upd_list_keys a_id far0 ftg). intros u x Hu Hx Hid. apply ftg_eq; [exact Hid|].
       destruct (parsed_fars _ _ _ _ _ _ _ Pu Hu) as [Uid Ufs]. rewrite Ufs.
@@ -909,7 +972,7 @@ Section Step.
         apply nil_b_spec in Gc1, Gc2, Gc3. subst cp cf cq. cbn [parse_all] in Pf, Pq. inversion Pf; subst fs. inversion Pq; subst qs.
         destruct ps; [|discriminate Lp]. rewrite !app_nil_r in *.
         assert (map tg (add_cmds burst (view (w_p w6)) (view (w_f w6)) (view (w_q w6))) = map tg (add_cmds burst P0 F0 Q0)) as Et.
-        { rewrite !tg_add_cmds. fold ftg. fold (qtg burst). rewrite VP, KFm, KQm. reflexivity. }
+        { rewrite !tg_add_cmds. fold ptg. fold ftg. fold (qtg burst). rewrite KPm, KFm, KQm. reflexivity. }
         split; [rewrite Et; exact Hn0|]. apply disjoint_from_tg. rewrite Et. apply disjoint_from_tg. exact Hd0.
       - apply andb_true_iff in Gr. destruct Gr as [Gr Gr3]. apply andb_true_iff in Gr. destruct Gr as [Gr1 Gr2].
         apply nil_b_spec in Gr1, Gr2, Gr3. subst rp rf rq. cbn in R1, R2, R3. inversion R1; subst. inversion R2; subst. inversion R3; subst.
@@ -923,19 +986,24 @@ Section Step.
     - intros q Hq. rewrite AQ in Hq. rewrite VQ. apply (upd_list_stays q_id qer0 uqs (Q0 ++ qs) qs); [| |exact Hq].
       + rewrite <- AQ. apply nodupb_spec. exact G6.
       + intros x Hx. apply in_or_app. right. exact Hx.
-    - intros p Hp. rewrite VP in Hp. apply in_app_or in Hp. destruct Hp as [Hp|Hp]; [right; exact Hp|left].
-      apply lookup_pdrs_finds.
-      + apply orb_true_iff in G4. destruct G4 as [G4|G4]; [|apply nodupb_spec; exact G4].
-        apply nil_b_spec in G4. subst cp. destruct ps; [destruct Hp|discriminate Lp].
-      + rewrite VP. apply in_or_app. right. exact Hp.
-      + rewrite AP. apply in_map. exact Hp.
+    - intros p Hp. pose proof Hp as Hp1. rewrite VP in Hp.
+      assert (In p P0 \/ In (p_id p) (w_addp w6)) as [Hp0|Hpa].
+      { rewrite AP. destruct (upd_list_from p_id _ _ _ Hp) as [Hx|Hx].
+        - apply in_app_or in Hx. destruct Hx as [Hx|Hx]; [left; exact Hx|right; apply in_or_app; left; apply in_map; exact Hx].
+        - right. apply in_or_app. right. apply in_map. exact Hx. }
+      + right. exact Hp0.
+      + left. apply lookup_pdrs_finds; [|exact Hp1|exact Hpa].
+        apply orb_true_iff in G4. destruct G4 as [G4|G4]; [|apply nodupb_spec; exact G4].
+        apply andb_true_iff in G4. destruct G4 as [G4 G4']. apply nil_b_spec in G4, G4'. subst cp up.
+        destruct ps; [|discriminate Lp]. rewrite AP in Hpa. unfold pups, upd_pdrs in Hpa. cbn in Hpa. destruct Hpa.
     - intros f Hf'. rewrite VF in Hf'. rewrite AF. destruct (upd_list_from a_id _ _ _ Hf') as [Hx|Hx].
       + apply in_app_or in Hx. destruct Hx as [Hx|Hx]; [right; exact Hx|left; apply in_or_app; left; exact Hx].
       + left. apply in_or_app. right. exact Hx.
     - intros q Hq. rewrite VQ in Hq. rewrite AQ. destruct (upd_list_from q_id _ _ _ Hq) as [Hx|Hx].
       + apply in_app_or in Hx. destruct Hx as [Hx|Hx]; [right; exact Hx|left; apply in_or_app; left; exact Hx].
       + left. apply in_or_app. right. exact Hx.
-    - intros p Hp. exists p. split; [rewrite VP; apply in_or_app; left; exact Hp|reflexivity].
+    - intros p Hp. assert (In (ptg p) (map ptg (view (w_p w6)))) as Hin by (rewrite KPm; apply in_map; apply in_or_app; left; exact Hp).
+      apply in_map_iff in Hin. destruct Hin as (p' & E & Hp''). exists p'. split; assumption.
     - intros f Hf'. assert (In (ftg f) (map ftg (view (w_f w6)))) as Hin by (rewrite KFm; apply in_map; apply in_or_app; left; exact Hf').
       apply in_map_iff in Hin. destruct Hin as (f' & E & Hf''). exists f'. split; assumption.
     - intros q Hq. assert (In (qtg burst q) (map (qtg burst) (view (w_q w6)))) as Hin by (rewrite KQm; apply in_map; apply in_or_app; left; exact Hq).
